@@ -144,6 +144,11 @@ def shrink(evalr, mod, trace, hashseeds, clause, ksig, known, deadline,
 
 def write_replay(prop, clause, trace, hashseeds, detail, seed, extra=None):
     os.makedirs(REPLAY_DIR, exist_ok=True)
+    try:   # a human-readable rendering of the minimised case
+        mod = importlib.import_module('dst.props.' + prop)
+        readable = mod.sample(trace)
+    except Exception:
+        readable = None
     path = os.path.join(REPLAY_DIR, '%s-%s-%s.json' % (
         prop, seed, clause.replace('.', '_')))
     import formulas
@@ -155,7 +160,7 @@ def write_replay(prop, clause, trace, hashseeds, detail, seed, extra=None):
             'versions': {'formulas': getattr(formulas, '__version__', '?'),
                          'schedula': getattr(schedula, '__version__', '?'),
                          'python': sys.version.split()[0]},
-            'trace': trace, 'extra': extra or {},
+            'trace': trace, 'extra': extra or {}, 'readable': readable,
         }, f, indent=1, sort_keys=True)
     return path
 
